@@ -1048,6 +1048,12 @@ func (env *SpecEnv) havocTarget(st *State, e ast.Expr, where string) {
 	env.where = where
 	switch x := e.(type) {
 	case *ast.SelectorExpr:
+		if hn, srt, ok := env.typeFieldHeap(x); ok {
+			// Type.field: the field of every object of that type
+			h := u.heapGet(st, hn, srt)
+			u.heapSet(st, hn, u.fresh("modall_"+x.Sel.Name, h.Sort))
+			return
+		}
 		base := env.eval(st, st, x.X)
 		name := x.Sel.Name
 		if strings.HasPrefix(name, "ʃ") {
@@ -1446,4 +1452,30 @@ func takeSide(st *State, mark int, q *Term) *Term {
 	}
 	st.assume = append(st.assume[:mark:mark], keep...)
 	return And(side...)
+}
+
+
+// typeFieldHeap recognises `TypeName.field` (or pkg.TypeName.field) in a
+// modifies clause and returns the heap of that field.
+func (env *SpecEnv) typeFieldHeap(x *ast.SelectorExpr) (string, string, bool) {
+	if id, ok := x.X.(*ast.Ident); ok {
+		if _, bound := env.binds[id.Name]; bound {
+			return "", "", false
+		}
+	}
+	t := env.tryType(x.X)
+	if t == nil {
+		return "", "", false
+	}
+	_, stt := structOf(t)
+	if stt == nil {
+		return "", "", false
+	}
+	for i := 0; i < stt.NumFields(); i++ {
+		if stt.Field(i).Name() == x.Sel.Name {
+			tm := env.u().eng.tm
+			return tm.HeapName(t, x.Sel.Name), ArraySort(SInt, tm.SortOf(stt.Field(i).Type())), true
+		}
+	}
+	return "", "", false
 }
